@@ -83,6 +83,9 @@ def run(st, tier, seed):
             reqs.append({"op": "pil-design", "stmts": [s for s in pilio.read_pil(out["pil"]) if s["k"] != "kinetic"]}); meta.append(("pil", inp, out, b))
             rq = progen.compile_request(b, "pil", anon=out["anon_before"]); rq["op"] = "finish"; rq["mfe"] = out["mfe"]
             reqs.append(rq); meta.append(("finish", inp, out, b))
+            reqs.append({"op": "mfe-write", "stmts": [s for s in pilio.read_pil(out["pil"]) if s["k"] != "kinetic"],
+                         "layout": "struct" if struct_orient else "strand", "nts": out["nts"]})
+            meta.append(("mfe", inp, out, b))
         if len(res.samples) < 1:
             res.sample({"source": b.texts, "seqs": out["seqs"][:600]})
     if drv is not None:
@@ -98,6 +101,16 @@ def run(st, tier, seed):
                 if probs:
                     res.violations.append({"what": "finished sequences do not satisfy the source program: " + probs[0], "input": inp,
                                            "observed": probs[:5], "seqs": out["seqs"], "sig": "C06:satsrc", "cmd": "pepper-finish"})
+            elif kind == "mfe":
+                res.disagreements_checked += 1
+                import re as _re
+                # the GC-content float of each record is masked on both sides
+                want = [_re.sub(r"^(\S+) 0\.000000 \S+ 0$", r"\1 0.000000 GC 0", l) for l in out["mfe"].split("\n")]
+                if g.get("ok") != want:
+                    first = next((i for i, (x, y) in enumerate(zip(g.get("ok") or [], want)) if x != y), None)
+                    res.corr_breaks.append({"name": "Mfe.processResults+output", "input": inp,
+                                            "model": (g.get("ok") or g)[first] if first is not None and "ok" in g else str(g)[:300],
+                                            "impl": want[first] if first is not None else "length %d vs %d" % (len(g.get("ok") or []), len(want))})
             else:
                 res.disagreements_checked += 1
                 want_seqs = [l for l in out["seqs"].split("\n") if l]
